@@ -3236,6 +3236,8 @@ def tflite_optimise_graph(nng, arch, force_symmetric_int_weights, output_basenam
                 memcpy.add_input_tensor(zero)
                 memcpy.set_output_tensor(ofm)
                 memcpy.set_ifm_ofm_shapes()
+                # the copy is an operator like any other: a data type that the NPU cannot add (int64) stays on the CPU
+                memcpy.run_on_npu = arch.tflite_supported_operators.is_operator_supported(memcpy)
                 op.set_output_tensor(ofm_clone)
                 DebugDatabase.add_optimised(op, memcpy)
 
